@@ -11,7 +11,20 @@ import vlib
 MPI_INC = ["-I/usr/lib/x86_64-linux-gnu/openmpi/include", "-I/usr/lib/x86_64-linux-gnu/openmpi/include/openmpi"]
 RULE = ("for each configuration {TBB+MPI, TBB only, neither (TBB and Boost.MPI headers poisoned with #error)} and each header H under include/parmcb meaningful in it: "
         "TU '#include <parmcb/H>' compiled alone (g++ -std=c++14 -c); then every unordered pair {H1,H2} incl. H1=H2 linked from two TUs plus main (quick: pairs (H,H) and pairs "
-        "with the umbrella headers). evaluations = compiles + links; distinct_nontrivial = distinct programs (single-header TUs + two-TU programs)")
+        "with the umbrella headers); and for every header with a public entry point a USE program (harness/use_header.cpp): that header is the only parmcb include, what it offers is instantiated, linked and run on a small graph. evaluations = compiles + links + runs; distinct_nontrivial = distinct programs (single-header TUs + two-TU programs)")
+
+
+# header -> section of harness/use_header.cpp that instantiates and runs what the header offers, with that header as the
+# only parmcb include of the translation unit. Headers not listed (config-like or pure implementation details whose
+# entry points are covered through the listed ones) are covered by the compile-alone and pair-link programs only.
+USE = {
+    "parmcb_sva_signed.hpp": "SIGNED", "parmcb_sva_trees.hpp": "TREES", "parmcb_sva_signed_tbb.hpp": "SIGNED_TBB",
+    "parmcb_approx_sva_signed.hpp": "APPROX_SIGNED", "parmcb_approx_sva_signed_tbb.hpp": "APPROX_SIGNED_TBB",
+    "parmcb_approx_sva_trees.hpp": "APPROX_TREES", "parmcb_approx_sva_trees_tbb.hpp": "APPROX_TREES_TBB",
+    "parmcb.hpp": "UMBRELLA", "mpi/parmcb_sva_signed.hpp": "MPI_SIGNED", "mpi/parmcb_sva_trees.hpp": "MPI_TREES", "mpi/parmcb.hpp": "MPI_UMBRELLA",
+    "forestindex.hpp": "FORESTINDEX", "spvecgf2.hpp": "SPVECGF2", "spvecfp.hpp": "SPVECFP", "fp.hpp": "FP", "util.hpp": "UTIL",
+    "sptrees.hpp": "SPTREES", "detail/fvs.hpp": "FVS", "detail/cycles.hpp": "CYCLES", "detail/spanning_forest.hpp": "SPANNING_FOREST",
+}
 
 
 def headers():
@@ -117,12 +130,58 @@ def run(tier):
                 syms = sorted(set(x.split("multiple definition of ")[1].split(";")[0].strip("`'‘’ ") for x in outp.splitlines() if "multiple definition of" in x))
                 c.violations.append({"site": "%s + %s" % (h1, h2), "class": "does-not-link", "case": "config=%s;tu1=%s;tu2=%s" % (name, h1, h2),
                                      "msg": "two translation units including <parmcb/%s> and <parmcb/%s> do not link: %s" % (h1, h2, "; ".join(syms[:4]) or outp[-300:])})
+    # "usable" half: one program per listed header, compiled with that header as the only parmcb include, linked and run
+    uses = []
+    for name, tbb, mpi in configs:
+        cfgdir = vlib.gen_config(tbb=tbb, mpi=mpi)
+        inc = []
+        if not tbb:
+            inc += ["-I", os.path.join(vlib.VERIF, "shim", "no_tbb")]
+        if not mpi:
+            inc += ["-I", os.path.join(vlib.VERIF, "shim", "no_mpi")]
+        inc += ["-I", cfgdir, "-I", os.path.join(vlib.REPO, "include")] + (MPI_INC if mpi else [])
+        for h in hs:
+            if h in USE and meaningful(h, tbb, mpi):
+                uses.append((name, h, inc))
+
+    def use_one(u):
+        name, h, inc = u
+        out = os.path.join(work, "use_%s__%s" % (name, h.replace("/", "_").replace(".hpp", "")))
+        libs = ["-lboost_timer", "-lboost_serialization", "-lpthread"] + (["-ltbb"] if name != "none" else [])
+        if name == "tbb+mpi":
+            libs += ["-lboost_mpi", "-L/usr/lib/x86_64-linux-gnu/openmpi/lib", "-lmpi_cxx", "-lmpi"]
+        cmd = ["ccache", "g++", "-std=c++14", "-O0", "-w", "-DUSE_" + USE[h], "-DHDR=<parmcb/%s>" % h] + inc + ["-c", os.path.join(vlib.VERIF, "harness", "use_header.cpp"), "-o", out + ".o"]
+        p = subprocess.run(cmd, env=env, stdout=subprocess.PIPE, stderr=subprocess.STDOUT, text=True)
+        if p.returncode != 0:
+            return u, "does-not-instantiate", " | ".join([l for l in p.stdout.splitlines() if "error" in l][:2])
+        p = subprocess.run(["g++", out + ".o", "-o", out] + libs, stdout=subprocess.PIPE, stderr=subprocess.STDOUT, text=True)
+        if p.returncode != 0:
+            return u, "does-not-link", p.stdout[-300:]
+        try:
+            p = subprocess.run([out], stdout=subprocess.PIPE, stderr=subprocess.STDOUT, text=True, timeout=60,
+                               env=dict(os.environ, OMPI_ALLOW_RUN_AS_ROOT="1", OMPI_ALLOW_RUN_AS_ROOT_CONFIRM="1", OMPI_MCA_rmaps_base_oversubscribe="1"))
+        except subprocess.TimeoutExpired:
+            return u, "use-program-hangs", "no termination within 60 s"
+        finally:
+            if os.path.exists(out):
+                os.unlink(out)
+        if p.returncode != 0 or "USE-OK" not in p.stdout:
+            return u, "use-program-fails", "exit %d: %s" % (p.returncode, p.stdout[-300:])
+        return u, None, ""
+
+    with ThreadPoolExecutor(max_workers=vlib.NPROC) as ex:
+        for (name, h, _), cls, msg in ex.map(use_one, uses):
+            nprog += 1
+            neval += 3
+            if cls:
+                c.violations.append({"site": h, "class": cls, "case": "config=%s;use=%s" % (name, h),
+                                     "msg": "a program whose only parmcb include is <parmcb/%s> and which uses what the header offers: %s" % (h, msg)})
     c.evaluations = neval
     c.nontrivial = nprog
     c.programs = nprog
     c.samples = ["config=tbb+mpi: a.cpp='#include <parmcb/util.hpp>' b.cpp='#include <parmcb/parmcb.hpp>' main.cpp -> link",
                  "config=none: '#include <parmcb/sptrees.hpp>' compiled alone with <tbb/*.h> poisoned"]
-    c.bounds.append({"bound": "headers=%d configs=3 tier=%s" % (len(hs), tier), "single_header_TUs": len(jobs), "two_TU_programs": len(links), "complete": True})
+    c.bounds.append({"bound": "headers=%d configs=3 tier=%s" % (len(hs), tier), "single_header_TUs": len(jobs), "two_TU_programs": len(links), "use_programs": len(uses), "complete": True})
     c.total_reported = len(c.violations)
     return c.finish()
 
